@@ -215,11 +215,26 @@ def c17_scan(rec, rng, thorough):
         bs = rng.choice([1, 2, 3, 4, 7, 256])
         e = dict(ev="py_scan", arm=arm, K=5, seq=ranks, pssm=rows, thr=thr, bs=bs)
 
+        life = it % 3      # object life-cycles: 0 = everything referenced, 1 = temporaries only, 2 = references dropped + churn
+
         def run():
-            pssm = make_pssm(rows, False)
-            striped = lightmotif.stripe(text_of(ranks, False))
             hits = []
-            sc = lightmotif.scan(pssm, striped, threshold=ungrid(thr), block_size=bs)
+            if life == 1:
+                # the scanner is the only owner of the matrix and of the sequence
+                sc = lightmotif.scan(make_pssm(rows, False).reverse_complement().reverse_complement(),
+                                     lightmotif.stripe(text_of(ranks, False)), threshold=ungrid(thr), block_size=bs)
+            else:
+                pssm = make_pssm(rows, False)
+                striped = lightmotif.stripe(text_of(ranks, False))
+                sc = lightmotif.scan(pssm, striped, threshold=ungrid(thr), block_size=bs)
+                if life == 2:
+                    del pssm, striped
+            if life:
+                # recycle the memory of anything that was freed: objects of the same sizes with other contents
+                import gc
+                gc.collect()
+                junk = [make_pssm([[7 - (i + j + k) % 15 for k in range(4)] + [NINF] for j in range(len(rows))], False) for i in range(12)]
+                junk2 = [lightmotif.stripe(text_of([(i + j) % 4 for j in range(len(ranks))], False)) for i in range(6)]
             for h in sc:
                 hits.append([h.position, grid(h.score)])
                 if len(hits) > L + 2:
@@ -232,10 +247,19 @@ def c17_scan(rec, rng, thorough):
             e.update(ret="hang" if r[0] == "ok" else r[0], msg="" if r[0] == "ok" else r[1], hits=[])
         rec.emit(e, sig=(arm, tuple(ranks), json.dumps(rows), thr, bs))
         rec.cls("scan")
+        if life:
+            rec.cls("scanner_outlives_its_arguments")
     lmhook.force_arm("none")
 
 
+_ROWS_CALLS = [0]
+
+
 def rows_of(mat, n):
+    # every other read goes through negative indices (mat[i - n] is row i)
+    _ROWS_CALLS[0] += 1
+    if _ROWS_CALLS[0] % 2 == 0:
+        return [list(mat[i - n]) for i in range(n)]
     return [list(mat[i]) for i in range(n)]
 
 
@@ -436,6 +460,14 @@ def c17_errors(rec, rng, thorough):
         ("normalize_bad_type", lambda: lightmotif.CountMatrix({"A": [1], "C": [1], "T": [1], "G": [1]}).normalize("x")),
         ("log_odds_bad_background", lambda: lightmotif.CountMatrix({"A": [1], "C": [1], "T": [1], "G": [1]}).normalize(0.5).log_odds({"A": 0.9, "C": 0.9})),
         ("log_odds_bad_key", lambda: lightmotif.CountMatrix({"A": [1], "C": [1], "T": [1], "G": [1]}).normalize(0.5).log_odds({"AA": 0.5})),
+        ("log_odds_empty_key", lambda: lightmotif.CountMatrix({"A": [1], "C": [1], "T": [1], "G": [1]}).normalize(0.5).log_odds({"": 0.5, "A": 0.5})),
+        ("normalize_empty_key", lambda: lightmotif.CountMatrix({"A": [1], "C": [1], "T": [1], "G": [1]}).normalize({"": 0.5})),
+        ("normalize_long_key", lambda: lightmotif.CountMatrix({"A": [1], "C": [1], "T": [1], "G": [1]}).normalize({"AC": 0.5})),
+        ("normalize_unknown_key", lambda: lightmotif.CountMatrix({"A": [1], "C": [1], "T": [1], "G": [1]}).normalize({"Z": 0.5})),
+        ("scoringmatrix_empty_background_key", lambda: lightmotif.ScoringMatrix({"A": [1.0], "C": [1.0], "T": [1.0], "G": [1.0]}, background={"": 1.0})),
+        ("scoringmatrix_empty_key", lambda: lightmotif.ScoringMatrix({"": [1.0], "A": [1.0]})),
+        ("countmatrix_empty_key", lambda: lightmotif.CountMatrix({"": [1], "A": [1]})),
+        ("countmatrix_nonascii_key", lambda: lightmotif.CountMatrix({"\u00e9": [1], "A": [1]})),
         ("pvalue_bad_method", lambda: dna.pvalue(1.0, method="nope")),
         ("rc_protein", lambda: prot.reverse_complement()),
         ("load_bad_format", lambda: list(lightmotif.load(io.BytesIO(b""), "nope"))),
@@ -443,9 +475,11 @@ def c17_errors(rec, rng, thorough):
         ("load_missing_file", lambda: list(lightmotif.load("/nonexistent/file.jaspar", "jaspar"))),
         ("load_text_file_object", lambda: list(lightmotif.load(io.StringIO("x"), "jaspar"))),
     ]
+    # keys that name no symbol in a dict of columns are ignored by the constructors (not an error): only "no panic" is demanded
+    lenient = {"scoringmatrix_empty_key", "countmatrix_empty_key", "countmatrix_nonascii_key"}
     for name, f in cases:
         r = call(f)
-        rec.emit(dict(ev="py_call", call=name, ret=r[0], msg="" if r[0] == "ok" else r[1], expect="exc"))
+        rec.emit(dict(ev="py_call", call=name, ret=r[0], msg="" if r[0] == "ok" else r[1], expect="ok_or_exc" if name in lenient else "exc"))
         rec.cls("error_path")
 
 
@@ -573,7 +607,10 @@ def record_c17(rec, rng, thorough):
 def index_probe(obj, n):
     """results of obj[i] for i in -n-2 .. n+1 : ['ok', value] | ['exc', name] | ['panic', msg]"""
     out = []
-    for i in range(-n - 2, n + 2):
+    # every index around the object, and a few far outside (still inside the platform's index type: beyond it CPython's
+    # own sequences refuse too)
+    far = [2 ** 31 - 1, 2 ** 31, -2 ** 31, -2 ** 31 - 1, 2 ** 40, -2 ** 40, 2 ** 62]
+    for i in list(range(-n - 2, n + 2)) + far:
         r = call(lambda: obj[i])
         v = r[1]
         if r[0] == "ok":
@@ -583,9 +620,10 @@ def index_probe(obj, n):
                 v = quant(v, 4096)
             else:
                 v = int(v)
-            out.append(dict(i=i, k="ok", v=v))
+            out.append(dict(i=max(min(i, 10 ** 9), -10 ** 9), k="ok", v=v))
         else:
-            out.append(dict(i=i, k=r[0] if r[1] != "IndexError" else "IndexError", v=r[1]))
+            # TLC has 32-bit integers: far indices are logged clamped to +-10^9 (still far outside), the real one as text
+            out.append(dict(i=max(min(i, 10 ** 9), -10 ** 9), raw=str(i), k=r[0] if r[1] != "IndexError" else "IndexError", v=r[1]))
     return out
 
 
@@ -659,6 +697,20 @@ def record_c18(rec, rng, thorough):
                                 emit_view(rec, "striped", ranks, view_probe(st, int), dict(C=32, R=R, K=k, wrap=w - 1))
                             else:
                                 rec.emit(dict(ev="py_call", call="calculate_after_reuse", ret=sc2[0], msg=sc2[1], expect="ok"))
+                        # ---- ... and then with a LONGER motif than any before (look-ahead rows grown a second time)
+                        w3 = w + rng.randint(1, 4)
+                        rows3 = rand_pssm(rng, w3, k)
+                        sc3 = call(lambda: make_pssm(rows3, protein).calculate(st))
+                        if sc3[0] == "ok":
+                            sc3 = sc3[1]
+                            n3 = max(L - w3 + 1, 0)
+                            rec.emit(dict(ev="py_index", kind="scores", logical=[], seq=ranks, pssm=rows3, K=k, scale=4,
+                                          len=call(lambda: len(sc3))[1], probes=[dict(p, v=(p["v"] // 1024 if p["k"] == "ok" and abs(p["v"]) < 10 ** 9 else p["v"])) for p in index_probe(sc3, n3)]))
+                            rec.cls("index_scores_after_longer_motif")
+                            emit_view(rec, "scores", [], view_probe(sc3, grid), dict(C=32, R=R, K=k, seq=ranks, pssm=rows3))
+                            emit_view(rec, "striped", ranks, view_probe(st, int), dict(C=32, R=R, K=k, wrap=w3 - 1))
+                        else:
+                            rec.emit(dict(ev="py_call", call="calculate_after_longer_motif", ret=sc3[0], msg=sc3[1], expect="ok"))
     # ---- matrices: widths whose row stride differs from the column count
     widths = list(range(0, 13)) + [16, 31, 40] if thorough else [0, 1, 2, 3, 4, 5, 8, 9, 16, 40]
     for m in widths:
@@ -728,9 +780,12 @@ def record_c18(rec, rng, thorough):
 # ----------------------------------------------------------------------------- entry point
 
 def main(prop, out, seed, thorough):
-    rng = random.Random(seed * 1000003 + (17 if prop == "C17" else 11 if prop in ("C11", "C12", "C13") else 18))
+    rng = random.Random(seed * 1000003 + (17 if prop in ("C17", "C06") else 11 if prop in ("C11", "C12", "C13") else 18))
     rec = Rec(out)
-    if prop == "C14":
+    if prop == "C06":
+        # object life-cycles through the bindings: scanners that outlive every other reference to their arguments
+        c17_scan(rec, rng, thorough)
+    elif prop == "C14":
         # loading through Python file objects (every chunking of the stream, short reads included)
         c17_load(rec, rng, thorough)
     elif prop in ("C11", "C12", "C13"):
